@@ -34,6 +34,20 @@ def load_known(prop):
     return [e for e in data.get("findings", []) if e.get("property") == prop]
 
 
+def load_floors(mod, prop, tier):
+    """Inconclusive floors. The module names the deciding counters (keys of FLOORS[tier]); the
+    values come from floors.json, calibrated by tools/floors.py at <= 1/10 of the minimum observed
+    over several seeds on the unchanged tree.  A counter without a calibrated value only has to
+    be reached once."""
+    keys = list(getattr(mod, "FLOORS", {}).get(tier, {}))
+    path = os.path.join(VERIF, "floors.json")
+    cal = {}
+    if os.path.exists(path):
+        with open(path) as f:
+            cal = json.load(f).get(prop, {}).get(tier, {})
+    return {k: int(cal.get(k, 1)) for k in keys}
+
+
 def classify(violation, known):
     """Return the open known finding whose classifier matches this violation, if any."""
     for e in known:
@@ -181,7 +195,7 @@ def main(argv=None):
             matched.setdefault(e["id"], (e, 0))
             matched[e["id"]] = (e, matched[e["id"]][1] + 1)
 
-    floors = getattr(mod, "FLOORS", {}).get(args.tier, {})
+    floors = load_floors(mod, prop, args.tier)
     below = {k: (m["counters"].get(k, 0), f) for k, f in floors.items()
              if m["counters"].get(k, 0) < f}
     if m["evaluations"] == 0:
